@@ -224,7 +224,9 @@ def _overrides(variant, seed):
         'sets_k_fold_rdm': {'k_rdm': lambda: 2}, 'sets_k_fold_pattern': {'k': lambda: 2},
         'sets_random': {'n_rdm': lambda: 1, 'n_pattern': lambda: 2},
         'input_check_model': {'models': lambda: [mk_model('fixed', variant, seed), mk_model('weighted', variant, seed)]},
-        'mean@RDMs': {}, 'get_measurements_tensor': {'by': lambda: 'conds'},
+        # per-entry weights of the documented (n_rdm x n_pairs) form
+        'mean@RDMs': {'weights': lambda: np.round(g.uniform(0.5, 2.0, size=(3, 6)), 3)},
+        'get_measurements_tensor': {'by': lambda: 'conds'},
         'odd_even_split': {'obs_desc': lambda: 'conds'},
         'split_channel': {'by': lambda: 'roi'}, 'subset_channel': {'by': lambda: 'roi', 'value': lambda: 0},
         'subset_pattern': {'by': lambda: 'cat', 'value': lambda: 0}, 'subsample_pattern': {'by': lambda: 'cat', 'value': lambda: [0, 0]},
@@ -329,8 +331,13 @@ def plan(qual, kind, owner, fn, variant, seed):
     for p in params:
         if p.kind in (p.VAR_POSITIONAL, p.VAR_KEYWORD):
             if base == 'concat':
+                def other_order():
+                    # same conditions listed in another order: concat has to align it
+                    r = mk_rdms(variant, shift=10, seed=seed)
+                    r.reorder([2, 0, 3, 1])
+                    return r
                 facts.append(('*rdms', lambda: mk_rdms(variant, seed=seed)))
-                facts.append(('*rdms', lambda: mk_rdms(variant, shift=10, seed=seed)))
+                facts.append(('*rdms', other_order))
             continue
         if p.name in ov:
             facts.append((p.name, ov[p.name]))
